@@ -185,8 +185,11 @@ func (c *Client) reader() {
 			c.mu.Unlock()
 			return
 		}
-		if c.OnPacket != nil {
-			c.OnPacket(p)
+		c.mu.Lock()
+		onPacket := c.OnPacket
+		c.mu.Unlock()
+		if onPacket != nil {
+			onPacket(p)
 		}
 		c.mu.Lock()
 		c.log = append(c.log, &Recv{P: p, At: time.Now()})
@@ -205,6 +208,13 @@ func (c *Client) reader() {
 			}
 		}
 	}
+}
+
+// SetAutoAck switches prompt acknowledgement on or off.
+func (c *Client) SetAutoAck(on bool) {
+	c.mu.Lock()
+	c.AutoAck = on
+	c.mu.Unlock()
 }
 
 // Send encodes and writes one packet.
@@ -371,7 +381,9 @@ func (b *Broker) Connect(o ConnectOpts) (*Client, *mw.Packet, error) {
 		return nil, nil, err
 	}
 	c := NewClient(conn, o.ID, o.V)
+	c.mu.Lock()
 	c.AutoAck = o.AutoAck
+	c.mu.Unlock()
 	name, lvl := mw.ProtoFor(o.V)
 	p := &mw.Packet{Type: mw.CONNECT, ProtoName: name, ProtoLevel: lvl, CleanStart: o.CleanStart, KeepAlive: o.KeepAlive,
 		ClientID: o.ID, Will: o.Will, Props: o.Props}
